@@ -50,11 +50,15 @@ def matchP : Ty → UInt8 → Bool
 
 /-! ### `ReadPayload` -/
 
+/-- key / mapped value of a map entry value `(l k v)` -/
+def kvKey (kv : Val) : Val := kv.elems.headD .nil
+def kvVal (kv : Val) : Val := kv.elems.tail.headD .nil
+
 /-- keep the first entry for each key (`std::map::emplace` does not overwrite) -/
 def dedupKeys : List Val → List Val
   | [] => []
   | kv :: rest =>
-    kv :: (dedupKeys rest).filter (fun kv' => !(kv'.elems.headD .nil == kv.elems.headD .nil))
+    kv :: (dedupKeys rest).filter (fun kv' => !(kvKey kv' == kvKey kv))
 
 /-- BIN payload of an integral-element sequence (vector.h / array.h / logical_buffer.h) -/
 def decBin (f : Flavor) (e : Ty) : M Val := do
@@ -214,6 +218,11 @@ abbrev E (α : Type) := HChan → Except Err (α × HChan)
 
 def encSize (n : Nat) : Bytes := encInt .u64 n
 
+/-- a logical buffer whose size member exceeds the array capacity is refused by `Write` -/
+def lbufOver : Flavor → Nat → Bool
+  | .lbuf cap _ unb, n => !unb && cap < n
+  | _, _ => false
+
 /-- fold an encoder over a list, concatenating -/
 def encAll {α} (f : α → HChan → Except Err (Bytes × HChan)) : List α → HChan → Except Err (Bytes × HChan)
   | [], h => .ok ([], h)
@@ -247,7 +256,7 @@ def size : Ty → Val → Nat
   | .prod _ ts, .list vs => 1 + (encSize ts.length).length + sizeProd ts vs
   | .map _ k v, .list kvs =>
     1 + (encSize kvs.length).length
-      + sumMap (fun kv => size k (kv.elems.headD .nil) + size v (kv.elems.tail.headD .nil)) kvs
+      + sumMap (fun kv => size k (kvKey kv) + size v (kvVal kv)) kvs
   | .opt _, .nil => 1
   | .opt t, .tag _ v => size t v
   | .result _ ek _, .tag 0 (.int e) => 1 + (encInt ek e).length
@@ -285,10 +294,7 @@ def encode : Ty → Val → HChan → Except Err (Bytes × HChan)
   | .str _ cb, .list vs, h =>
     .ok (0xbd :: encSize (vs.length * cb) ++ vs.flatMap (unitToRaw cb), h)
   | .seq f e, .list vs, h =>
-    let over := match f with
-      | .lbuf cap _ unb => !unb && vs.length > cap
-      | _ => false
-    if over then .error .invalidContainerLength
+    if lbufOver f vs.length then .error .invalidContainerLength
     else if e.integral then
       .ok (0xbc :: encSize (vs.length * e.width) ++ vs.flatMap (valToRaw e), h)
     else
@@ -301,9 +307,9 @@ def encode : Ty → Val → HChan → Except Err (Bytes × HChan)
     | .error err => .error err
   | .map _ k v, .list kvs, h =>
     match encAll (fun kv h =>
-        match encode k (kv.elems.headD .nil) h with
+        match encode k (kvKey kv) h with
         | .ok (a, h') =>
-          match encode v (kv.elems.tail.headD .nil) h' with
+          match encode v (kvVal kv) h' with
           | .ok (b, h'') => .ok (a ++ b, h'')
           | .error err => .error err
         | .error err => .error err) kvs h with
@@ -378,7 +384,7 @@ def allP {α} (f : α → Bool) : List α → Bool
 
 def keysDistinct : List Val → Bool
   | [] => true
-  | kv :: rest => rest.all (fun kv' => !(kv'.elems.headD .nil == kv.elems.headD .nil)) && keysDistinct rest
+  | kv :: rest => rest.all (fun kv' => !(kvKey kv' == kvKey kv)) && keysDistinct rest
 
 mutual
 def valid : Ty → Val → Bool
